@@ -276,15 +276,20 @@ class ADP_EAMTabulation(SetFL_EAMTabulation):
     """Write the tabulation to the file object `fp`.
 
     :param fp: File object into which data should be written."""
+    # Tabulate into a buffer first: the setfl body, dipole and quadrupole blocks reach fp
+    # together or (if evaluating a function fails) not at all.
+    from io import StringIO
+    workout = StringIO()
     writeSetFL(
       self.nrho, self.drho, 
       self.nr, self.dr,
       self.eam_potentials,
       self.potentials,
-      out = fp)
+      out = workout)
 
-    self._write_dipole(fp)
-    self._write_quadrupole(fp)
+    self._write_dipole(workout)
+    self._write_quadrupole(workout)
+    fp.write(workout.getvalue())
 
 
   def _write_dipole(self, fp):
